@@ -47,6 +47,15 @@ def values(rng, tier):
                     around(c, 3)
     for c in (2**53, 2**54, 2**63, U64 - 1, 0, 10500500000000000001):
         around(c, rad // 2)
+    # every power of two and its neighbours, and values whose quotient by a SMALLER prefix is an exact multiple of 2^32 or
+    # 2^31 (where an `int` of 32 bits would truncate to 0 or go negative)
+    for j in range(64):
+        around(2**j, 2)
+    for sysname, ps in SYS.items():
+        for _, m in ps:
+            for k in (1, 2, 3, 1000, 1024):
+                for w in (2**31, 2**32):
+                    around(k * w * m, 2)
     for _ in range(nrand):
         bits = rng.randrange(1, 65)
         vs.add(rng.randrange(1 << (bits - 1), 1 << bits) % U64)
@@ -162,6 +171,23 @@ def run(ctx):
                 res.violations.append(vlib.Violation(
                     "the table renders %s with the wrong prefix system or numeral" % sym, {"request": req, "value": v[idx]},
                     expected=want, observed=got))
+    # ... and not of the word size of the build: the 386 build of the library renders the same values identically
+    api386 = vlib.build_api_arch("386")
+    res.coverage_extra["build_386_available"] = bool(api386)
+    if api386:
+        step = max(1, len(reqs) // (20000 if ctx["tier"] == "quick" else 200000))
+        sub = [r for i, r in enumerate(reqs) if i % step == 0 or r[2] >= 2**31 and (r[2] & (r[2] - 1)) < 8]
+        got386 = vlib.batch(api386, [r[0] for r in sub])
+        want = dict(zip([r[0] for r in reqs], mod))
+        n386 = 0
+        for (line, s_, v), g in zip(sub, got386):
+            n386 += 1
+            if g != want[line]:
+                res.violations.append(vlib.Violation("FormatNumber on the 386 build differs from the model of human.go", {"request": line, "build": "GOARCH=386"},
+                                                     expected=want[line], observed=g))
+                if len(res.violations) > 20:
+                    break
+        res.coverage_extra["values_rendered_by_the_386_build"] = n386
     # the rendering is a function of the value alone: not of what was rendered before it by the same process (descending
     # magnitudes, jumps of several prefixes, both systems interleaved) ...
     seqs = []
